@@ -150,6 +150,18 @@ def run(P, item):
                             vv = v.fields[0] if isinstance(v, Agg) else v
                             add('the entry stored by the resumed call holds its result', simp(term_eq(vv, ex[0][4])))
             add('no lock is held after the resumed call completed', len(d['after']['held']) == 0)
+            ka = d['after']['keys']; qa = d['after']['queue']
+            nodup = b_and(*[b_not(simp(str_eq(qa[i], qa[j]))) for i in range(len(qa)) for j in range(i + 1, len(qa))]) if len(qa) > 1 else True
+            trk = b_and(*[(b_or(*[simp(str_eq(k, q)) for q in qa]) if qa else False) for k in ka]) if ka else True
+            add('after the resumed call stored its result the eviction queue has no duplicates and tracks exactly the stored keys',
+                b_and(nodup, len(qa) == len(ka), trk))
+            lim = it['limit']
+            if lim is not None: add('after the resumed call stored its result the cache holds at most `limit` entries', len(ka) <= lim)
+            if item.get('target', 'new') != 'fill' and inter == 'call_same' and not it['result'] and not it['cache_if'] and it['max_memory'] is None and it['ttl'] is None:
+                # the key was stored by the interleaved call already: the resumed store replaces it and displaces nothing
+                mk = d['mid']['keys']
+                add('a resumed call whose key was stored meanwhile replaces that entry and displaces nothing else',
+                    b_and(len(mk) == len(ka), *[(b_or(*[simp(str_eq(k, k2)) for k2 in ka]) if ka else False) for k in mk]))
         for prop, clause, f in claims:
             if prop not in props: continue
             res['claims'] += 1
@@ -189,20 +201,61 @@ def replay(f, w):
     L.append('keys ' + cname)
     if w['end'] == 'resume': L += ['poll 1', 'poll 1', 'poll 1', 'poll 1']
     else: L.append('drop 1')
-    L += ['keys ' + cname, 'end']
+    L += ['keys ' + cname]
+    if w['end'] == 'resume': L.append(f"call 0 {name} 0 " + ' '.join(map(str, x)))        # the stored entry answers the next call
+    L.append('end')
     outs, err = R.run_scenarios('\n'.join(L) + '\n', timeout=60)
     if not outs: return False, 'no output', []
     lines = outs[0]
-    if any(l.startswith('timeout') for l in lines) or not any(l.startswith('keys') for l in lines[-2:]):
+    if any(l.startswith('timeout') for l in lines) or len([l for l in lines if l.startswith('keys')]) < 3:
         return True, 'native run blocked while the call was suspended', lines
     polls = [l for l in lines if l.startswith('poll ')]
     keyl = [l.split()[2:] for l in lines if l.startswith('keys ')]
-    dev = []
-    if not polls or polls[0] != 'poll pending': dev.append('the call did not suspend natively: ' + (polls[0] if polls else '?'))
-    kx = '|'.join(map(str, x))
-    if keyl and kx in keyl[0]: dev.append(f'an entry for the pending result ({kx}) exists at the suspension point')
-    pr = w.get('predicted')
-    if pr and len(keyl) >= 3:
-        if sorted(keyl[2]) != sorted(pr['keys_after']): dev.append(f"keys after {w['end']}: native {sorted(keyl[2])} vs interpreter {sorted(pr['keys_after'])}")
-        else: return True, 'native run follows the interpreted path on which the claim fails (same stores at suspension, after the interleaved work and after ' + w['end'] + ')', lines
-    return (len(dev) > 0), '; '.join(dev) if dev else 'native run consistent', lines
+    execs = [int(l.split()[1]) for l in lines if l.startswith('execs ')]
+    rets = [l[4:] for l in lines if l.startswith('ret ')]
+    nf = len(w.get('fills', [[1]] * w.get('nfill', 1)))
+    if not polls or polls[0] != 'poll pending': return False, 'the call did not suspend natively: ' + (polls[0] if polls else '?'), lines
+    kx = '|'.join(map(str, x)); cl = f.get('clause', ''); lim = rec['intended']['limit']
+    # execs lines: one per fill, one after the first poll, one after an interleaved call, then one per further poll
+    e_fill = execs[nf - 1] if nf else 0; e_susp = execs[nf]; e_mid = execs[nf + 1] if inter.startswith('call_') else e_susp; e_end = execs[-2] if w['end'] == 'resume' else execs[-1]
+    ready = [p_[len('poll ready '):] for p_ in polls[1:] if p_.startswith('poll ready')]
+    dev = None
+    if 'held' in cl or 'guard' in cl: dev = None                       # only a native block confirms these (handled above)
+    elif 'no entry exists' in cl: dev = f'an entry for the pending result ({kx}) exists at the suspension point' if keyl and kx in keyl[0] else None
+    elif 'has not produced' in cl: dev = f'the body ran {e_susp - e_fill} time(s) before the suspension point was reached' if e_susp != e_fill and w.get('target') != 'fill' else None
+    elif 'changes neither store nor queue' in cl: dev = f'keys before the drop {sorted(keyl[1])}, after {sorted(keyl[2])}' if sorted(keyl[1]) != sorted(keyl[2]) else None
+    elif 'never runs the body' in cl: dev = f'the body ran {e_end - e_mid} time(s) after the drop' if e_end != e_mid else None
+    elif 'exactly once' in cl: dev = f'the resumed call ran the body {e_end - e_mid} time(s)' if (e_end - e_mid) + (e_susp - e_fill) != 1 else None
+    elif 'returns its own result' in cl:
+        if len(rec['args']) == 1 and rec['ret'] == 'u64' and ready:
+            want = ((sid << 40) ^ ((x[0] * 0x9E3779B97F4A7C15) % 2 ** 64))
+            dev = f'the resumed call returned {ready[0]}, its body produced {want}' if ready[0].strip() != str(want) else None
+    elif 'stores its result normally' in cl: dev = f'no entry for {kx} after the resumed call completed (keys {sorted(keyl[2])})' if kx not in keyl[2] else None
+    elif 'holds its result' in cl:
+        if ready and len(rets) > nf + (1 if inter.startswith('call_') else 0):
+            again = rets[-1]
+            dev = f'the entry stored by the resumed call answers {again}, the call returned {ready[0]}' if again.strip() != ready[0].strip() else None
+    elif 'at most `limit`' in cl: dev = f'{len(keyl[2])} entries with limit {lim}: {sorted(keyl[2])}' if lim is not None and len(keyl[2]) > lim else None
+    elif 'displaces nothing else' in cl:
+        lost = [k for k in keyl[1] if k not in keyl[2]]
+        dev = f'entries {lost} present before the resume are gone afterwards although the resumed call only replaced {kx}' if lost else None
+    elif 'eviction queue' in cl and w['end'] == 'resume' and w.get('target') != 'fill' and lim and rec['intended']['policy'] != 'Random' and len(rec['args']) == 1:
+        from .vc_inv import gen_tail
+        pre = L[:L.index(f"script pendings {sid * 10 + w['suspend_at']} 1")]
+        i1 = L.index('keys ' + cname); i2 = L.index('keys ' + cname, i1 + 1)
+        mid = L[i1 + 1:i2]
+        mid = [l.replace('call 1 ', 'call 0 ') for l in mid]
+        for seed in range(80):
+            tail = gen_tail(seed, [int(k) for k in keyl[2] if k.isdigit()], lim)
+            tl = [f'call 0 {name} 0 {v}' for v in tail]
+            A = L[:-2] + tl + ['end']
+            B = pre + mid + [f"call 0 {name} 0 " + ' '.join(map(str, x))] + tl + ['end']
+            oa, _ = R.run_scenarios('\n'.join(A) + '\n', timeout=60); ob, _ = R.run_scenarios('\n'.join(B) + '\n', timeout=60)
+            if not oa or not ob: continue
+            ea = [int(l.split()[1]) for l in oa[0] if l.startswith('execs ')][-len(tail) - 1:]; eb = [int(l.split()[1]) for l in ob[0] if l.startswith('execs ')][-len(tail) - 1:]
+            da = [b - a for a, b in zip(ea, ea[1:])]; db = [b - a for a, b in zip(eb, eb[1:])]
+            if da != db:
+                j = next(i for i, (p_, q_) in enumerate(zip(da, db)) if p_ != q_)
+                dev = f"after the resumed call, call #{j + 1} of the tail {tail} (argument {tail[j]}) {'runs the body' if da[j] else 'is a hit'} but {'runs the body' if db[j] else 'is a hit'} when the same calls run one after the other (tail seed {seed})"
+                lines = oa[0] + ['--- reference: same calls without suspension ---'] + ob[0]; break
+    return (dev is not None), dev if dev else 'native run shows no deviation for this claim', lines
